@@ -48,7 +48,10 @@ def o_basis_multilattice(rng, n=4, order=4, dets=(4, 6, 8, 9), which=("perm",)):
 def o_basis_o1(rng, n=8, max_N=12):
     def gen():
         for k in range(n):
-            yield {"crystal": crystal(rng, max_N=max_N), "orders": [1]}
+            inp = {"crystal": crystal(rng, max_N=max_N, min_nlp=2 if k % 2 else 1), "orders": [1]}
+            if k % 2:
+                inp["explicit_ops"] = rng.randrange(10 ** 6)      # caller-supplied operations, reordered
+            yield inp
     return O.run_oracle("basis_o1", gen())
 
 
